@@ -76,6 +76,8 @@ JudgeExtParse(e, o) ==
         IF r.zone = "reject" THEN Bad("ext-accepts-ill-formed", <<"C03">>, o)
         ELSE IF r.zone \in {"accept", "either", "other"} /\ [e.st EXCEPT !.id = LIDefault] # r.val
              THEN Bad("ext-value", <<"C03">>, o)
+        (* a library that supports other extensions prints them too: text not judged (as in JudgeLocParse) *)
+        ELSE IF r.zone = "other" THEN Good(o)
         ELSE IF e.ser # SerExt([e.st EXCEPT !.id = LIDefault]) THEN Bad("ext-text", <<"C04">>, o)
         ELSE Good(o)
     ELSE IF r.zone = "accept" THEN Bad("ext-rejects-well-formed", <<"C03">>, o)
